@@ -1,6 +1,7 @@
 (** Property C08 -- SGR attributes and colours.
     Only pinned statements, closed by [exact], with their assumptions printed. *)
 From Avt Require Import Oracles.Step Proofs.Inv Proofs.Sgr Proofs.StepC06C08.
+From Avt Require Import Gen.SgrFns Proofs.SgrTie.
 
 (** C08.1 the SGR decoder of the model is the grammar of the property text, for every parameter array. *)
 Theorem C08_decode : forall ps, sgr_ops ps = spec_sgr_params ps.
@@ -31,3 +32,21 @@ Theorem C08_pen_frame : forall p p' t f t', TInv t -> execute t f = Ok t' -> mat
 Proof. exact C08_nonsgr_holds. Qed.
 Check C08_pen_frame : forall p p' t f t', TInv t -> execute t f = Ok t' -> match f with Sgr _ => False | _ => True end -> holds_C08 (mkVt p t) f (mkVt p' t') = true.
 Print Assumptions C08_pen_frame.
+
+(** SOURCE TIE BY PROOF: one iteration of SgrOps::next (all 27 match arms with slice patterns and guards, in source order) is REGENERATED from src/parser.rs on every run (Gen/SgrFns.v) and the hand-written model step is proved equal to it, unconditionally *)
+Theorem C08_source_sgr_next : forall p rest, g_sgr_step p rest = sgr_step p rest.
+Proof. exact tie_sgr_step. Qed.
+Check C08_source_sgr_next : forall p rest, g_sgr_step p rest = sgr_step p rest.
+Print Assumptions C08_source_sgr_next.
+
+(** ... hence the regenerated SGR decoder is the grammar of the property, for every parameter array *)
+Theorem C08_source_decode : forall ps, g_sgr_go 0 ps = spec_sgr_params ps.
+Proof. exact tie_sgr_decode_spec. Qed.
+Check C08_source_decode : forall ps, g_sgr_go 0 ps = spec_sgr_params ps.
+Print Assumptions C08_source_decode.
+
+(** Terminal::sgr (18 arms) and the Pen bit methods, regenerated, equal the model *)
+Theorem C08_source_sgr_one : forall p op, g_sgr_one p op = sgr_one p op.
+Proof. exact tie_sgr_one. Qed.
+Check C08_source_sgr_one : forall p op, g_sgr_one p op = sgr_one p op.
+Print Assumptions C08_source_sgr_one.
